@@ -381,7 +381,7 @@ Decode ==
 
 \* a writer may pad every record to a multiple m of 2 and may use the long version at will
 Encode(m, fmt) ==
-  /\ ph = "run" /\ steps < MaxSteps /\ have /\ Len(hs.encs) < 3
+  /\ ph = "run" /\ steps < MaxSteps /\ have /\ Len(hs.encs) < (IF Kind = "ops" THEN 3 ELSE 2)
   /\ Kind = "ops" => (m = 2 /\ fmt = 1)          \* the replayed call has no parameters
   /\ LET recs == [i \in 1..Len(gs) |-> PadTo(EncodeValue(gs[i]), m)]
          offs == OffsOf(recs)
@@ -395,7 +395,7 @@ Encode(m, fmt) ==
 
 \* Encode of ANOTHER glyph set (the glyphs in reverse order) while earlier results are still held
 EncodeRev ==
-  /\ ph = "run" /\ steps < MaxSteps /\ have /\ Len(hs.encs) < 3 /\ Len(hs.encs) >= 1
+  /\ ph = "run" /\ steps < MaxSteps /\ have /\ Len(hs.encs) < 3 /\ Len(hs.encs) >= 1 /\ Kind = "ops"
   /\ LET src  == Reverse(gs)
          recs == [i \in 1..Len(src) |-> PadTo(EncodeValue(src[i]), 2)]
      IN Called3(Op("encrev", 0, <<>>, 0), hs.res, HandOut(EncodeRecs(recs, 1), src))
